@@ -11,6 +11,8 @@ type TxSpec struct {
 	BadChain bool      `json:"bad_chain,omitempty"`
 	FeeAmt   string    `json:"fee,omitempty"` // default 2000
 	FeeDen   string    `json:"fee_denom,omitempty"`
+	Fee2Amt  string    `json:"fee2,omitempty"` // a second fee coin (another denomination)
+	Fee2Den  string    `json:"fee2_denom,omitempty"`
 	Gas      uint64    `json:"gas,omitempty"`
 	Hold     int       `json:"hold,omitempty"` // network delay: number of blocks the tx is held back
 	// tampering relay: signatures are collected over SignOver, the delivered tx carries Msgs
